@@ -1,7 +1,7 @@
 (* Proofs/UdistTied.v — feasible range of 2U (twoUmin/twoUmax) and the memoised recurrence with
    its three leaves: tiedA = number of labellings with 2U <= w, for every tie vector, n1, w in Z. *)
 From Coq Require Import List ZArith Lia Arith Bool.
-From MM Require Import Base.GEComb Spec.Ucount Proofs.Ucount Model.Choose Model.Udist Proofs.Udist.
+From MM Require Import Base.GEComb Spec.Ucount Proofs.Ucount Model.GEChoose Model.Udist Proofs.Udist.
 Import ListNotations.
 Open Scope Z_scope.
 
